@@ -90,6 +90,11 @@ def cases(tier, seed):
         for r in range(reps * 2):
             n_ = rnd.choice([6, 10, 20])
             out.append(dict(cfg=dict(env=env_, n=n_, sweep="|".join(f"{k}={v}" for k, v in sorted(gp.items()) if k != "variant_preset"), **extra), gp=gp, B=16, s=rnd.randrange(10**6)))
+    # volume: rare data-dependent branches of the time-window construction (exact ties of the sampled bounds) need tens of thousands
+    # of instances to be visited; tight horizons make them more frequent
+    for gp_ in (dict(max_time=430, scale=False), dict(scale=False), dict(max_time=430, scale=True)):
+        for r in range(2 if q else 6):
+            out.append(dict(cfg=dict(env="cvrptw", n=20, scale=gp_["scale"], volume=True), gp=gp_, B=8192, s=rnd.randrange(10**6)))
     # generator objects re-parameterised between batches (meta-learning over sizes: new num_loc and capacity on the same object)
     for env_ in ("cvrp", "sdvrp", "cvrptw", "tsp"):
         for (n1, n2) in ((10, 20), (20, 50), (50, 10), (20, 33)):
